@@ -11,6 +11,7 @@ try:
     if r.returncode != 0:
         print("PATCH FAILED", r.stdout[-500:], r.stderr[-300:]); sys.exit(3)
     if a.demo:
+        a.demo = os.path.abspath(a.demo)
         r0 = subprocess.run(["/venv/bin/python", a.demo], env=dict(os.environ, PYTHONPATH="/repo"), capture_output=True, text=True, cwd="/tmp")
         r1 = subprocess.run(["/venv/bin/python", a.demo], env=dict(os.environ, PYTHONPATH=d), capture_output=True, text=True, cwd="/tmp")
         print(f"demo: clean exit={r0.returncode} mutated exit={r1.returncode}")
